@@ -240,6 +240,12 @@ def median(seq, key=identity):
             # the sum of two finite values overflowed: halve first (exact at
             # this magnitude) so that the result stays between low and high
             mean = low / 2.0 + high / 2.0
+        # the float mean of two integers beyond 2**53 can round to a value
+        # outside [low, high]: keep the result between the two middle values
+        if mean < low:
+            mean = low
+        elif mean > high:
+            mean = high
         return mean
 
 
